@@ -24,6 +24,7 @@ def unrelated_history(ctx):
                 if len(ctx.notes) < 20:
                     ctx.notes.append(f"prelude {step.__name__}: {type(e).__name__}: {e}")
     ctx.state("prelude.steps_done", done)
+    ctx.prelude_done = True
 
 
 def _base_lists():
